@@ -672,7 +672,10 @@ func (m *Message) RemoveReceiver(receiverEntityID EntityID) error {
 func (m *Message) Receivers() []*NodeInterface {
 	recSlice := m.receivers.getValues()
 	slices.SortFunc(recSlice, func(a, b *NodeInterface) int {
-		return strings.Compare(a.node.name, b.node.name)
+		if c := strings.Compare(a.node.name, b.node.name); c != 0 {
+			return c
+		}
+		return strings.Compare(a.node.entityID.String(), b.node.entityID.String())
 	})
 	return recSlice
 }
